@@ -179,7 +179,7 @@ PROCESSOR_ARGS = Ob("C01-F5", "R-FLOW", "each processor hands its per-value func
 PROCESS_DATA = Ob("C01-F6", "R-FLOW", "positional hand-over structs (InternalProcessData, NoZooms.., Zooms..) are built and destructured with the same meaning per position", WF.ob_process_data_positions, floor=6)
 
 PARSER_TABLES = Ob("C19-K1", "R-TABLE", "autoSql parser: declaration list not capped; keyword -> declaration type agrees in both parsers; names are identifiers", AQ.ob_parser_tables, floor=4)
-EMPTY_AND_TOOL_REFUSALS = Ob("C13-G9", "R-ERR", "writer refuses a source that starts no chromosome; converters never return Ok(()) after creating the output", RF.ob_empty_and_tool_refusals, floor=5)
+EMPTY_AND_TOOL_REFUSALS = Ob("C13-G10", "R-ERR", "writer refuses a source that starts no chromosome; converters never return Ok(()) after creating the output", RF.ob_empty_and_tool_refusals, floor=5)
 from ..obs import mirobs as MO
 MIR_RESULTS = Ob("C14-E3", "R-ERR", "type-resolved (MIR): no Result produced by a call in non-test workspace code is dropped or collapsed without propagation", MO.ob_results_used, floor=1)
 MIR_COORD_ARITH = Ob("C13-V1", "R-BOUND", "type-resolved (MIR): overflow-checked <=32-bit Add/Mul/Shl on the write and merge paths are each bounded", MO.ob_coordinate_arithmetic, floor=5)
